@@ -145,6 +145,9 @@ mod reader;
 /// Section-specific types.
 pub mod section;
 
+#[cfg(feature = "verif-hooks")]
+pub mod verif_hooks;
+
 /// Various utility types for usage in and around this library.
 pub mod util;
 
